@@ -870,6 +870,15 @@ func (c *Compiler) compileString(node *ast.String) error {
 	return nil
 }
 
+// compileArgument compiles one argument of a call. A statement (an assignment,
+// a loop, an import) yields no value that could be passed.
+func (c *Compiler) compileArgument(arg ast.Node) error {
+	if !arg.IsExpression() {
+		return c.formatError("invalid call argument (a statement has no value)", arg.Token().StartPosition)
+	}
+	return c.compile(arg)
+}
+
 func (c *Compiler) compilePipe(node *ast.Pipe) error {
 	if c.current.pipeActive {
 		return fmt.Errorf("compile error: invalid nested pipe")
@@ -1007,7 +1016,7 @@ func (c *Compiler) compileCall(node *ast.Call) error {
 		return err
 	}
 	for _, arg := range args {
-		if err := c.compile(arg); err != nil {
+		if err := c.compileArgument(arg); err != nil {
 			return err
 		}
 	}
@@ -1036,7 +1045,7 @@ func (c *Compiler) compileObjectCall(node *ast.ObjectCall) error {
 		return fmt.Errorf("compile error: max args limit of %d exceeded (got %d)", MaxArgs, argc)
 	}
 	for _, arg := range args {
-		if err := c.compile(arg); err != nil {
+		if err := c.compileArgument(arg); err != nil {
 			return err
 		}
 	}
@@ -2059,7 +2068,7 @@ func (c *Compiler) compilePartial(call *ast.Call) error {
 		return err
 	}
 	for _, arg := range args {
-		if err := c.compile(arg); err != nil {
+		if err := c.compileArgument(arg); err != nil {
 			return err
 		}
 	}
@@ -2084,7 +2093,7 @@ func (c *Compiler) compilePartialObjectCall(node *ast.ObjectCall) error {
 		return fmt.Errorf("compile error: max args limit of %d exceeded (got %d)", MaxArgs, argc)
 	}
 	for _, arg := range args {
-		if err := c.compile(arg); err != nil {
+		if err := c.compileArgument(arg); err != nil {
 			return err
 		}
 	}
